@@ -659,6 +659,33 @@ func dec64Child(args []string) {
 		fmt.Println("harness-error")
 		return
 	}
+	if strings.HasPrefix(args[0], "all") {
+		// every proper prefix of the file through one entry point: the first panic is reported
+		res := "err"
+		for k := 0; k < len(data) && !strings.HasPrefix(res, "panic"); k++ {
+			func() {
+				defer func() {
+					if r := recover(); r != nil {
+						res = fmt.Sprintf("panic: prefix of %d/%d bytes: %v", k, len(data), r)
+					}
+				}()
+				rb := roaring64.New()
+				in := append([]byte(nil), data[:k]...)
+				switch args[0][3:] {
+				case "0":
+					rb.ReadFrom(bytes.NewReader(in))
+				case "1":
+					rb.FromUnsafeBytes(in)
+				case "2":
+					rb.UnmarshalBinary(in)
+				default:
+					rb.FromBase64(base64.StdEncoding.EncodeToString(in))
+				}
+			}()
+		}
+		fmt.Println(res)
+		return
+	}
 	out := "ok"
 	func() {
 		defer func() {
@@ -798,6 +825,10 @@ func cmdFuzzDec64(args []string) {
 		if !ok {
 			data, kind, prefix = valid, "none", false
 		}
+		allPrefixes := len(valid) <= 2000 && r.Intn(3) == 0
+		if allPrefixes { // every truncation position of a small valid stream (one child process per entry point)
+			data, kind, prefix = valid, "all-prefixes", false
+		}
 		cv.Kinds[kind]++
 		u, _ := vennUniverse(64, nil, nil)
 		u.computeShifts(nil)
@@ -808,7 +839,11 @@ func cmdFuzzDec64(args []string) {
 		os.WriteFile(path, data, 0o644)
 		for entry := 0; entry < 4; entry++ {
 			ctx, cancel := context.WithTimeout(context.Background(), 30*time.Second)
-			cmd := exec.CommandContext(ctx, self, "dec64", fmt.Sprint(entry), path)
+			mode := fmt.Sprint(entry)
+			if allPrefixes {
+				mode = "all" + mode
+			}
+			cmd := exec.CommandContext(ctx, self, "dec64", mode, path)
 			var so, se bytes.Buffer
 			cmd.Stdout, cmd.Stderr = &so, &se
 			rerr := cmd.Run()
